@@ -16,7 +16,7 @@ def search(ctx):
 
 
 def run(ctx):
-    ctx.extract(["precedence", "lookahead"])
+    ctx.extract(["precedence", "lookahead", "fstrtext"])
     ctx.prove(PROPS, extra_modules=["RotoV.Model.Pratt", "RotoV.Model.Literal", "RotoV.Model.FString",
                                     "RotoV.Model.LookAheadBase", "RotoV.Model.LookAhead",
                                     "RotoV.Lemmas.Pratt", "RotoV.Lemmas.Literal", "RotoV.Lemmas.LookAhead"])
